@@ -433,6 +433,59 @@ theorem roundtrip_auto_charset (g : Name) (k : Kind) (name0 rest : List Nat)
   rw [e3, ← hx]
   exact fixFinal_twice _ g (lookup_written_noquote g _ hl)
 
+/-! CSS 2.1 §4.4, the BOM-less wide encodings: `@charset "` read as UTF-16 / UTF-32 code units — for every
+continuation and both values of `final`; the answer is implicit (`explicit = False`) -/
+theorem pattern_utf32_le (t : List Nat) (f : Bool) : detect (0x40 :: 0 :: 0 :: 0 :: t) f = some (.utf32le, false) := by
+  have h : detect [0x40, 0, 0, 0] false = some (.utf32le, false) := by decide
+  exact detect_never_revised [0x40, 0, 0, 0] t f _ h
+theorem pattern_utf32_be (t : List Nat) (f : Bool) : detect (0 :: 0 :: 0 :: 0x40 :: t) f = some (.utf32be, false) := by
+  have h : detect [0, 0, 0, 0x40] false = some (.utf32be, false) := by decide
+  exact detect_never_revised [0, 0, 0, 0x40] t f _ h
+theorem pattern_utf16_le (t : List Nat) (f : Bool) : detect (0x40 :: 0 :: 0x63 :: 0 :: t) f = some (.utf16le, false) := by
+  have h : detect [0x40, 0, 0x63, 0] false = some (.utf16le, false) := by decide
+  exact detect_never_revised [0x40, 0, 0x63, 0] t f _ h
+theorem pattern_utf16_be (t : List Nat) (f : Bool) : detect (0 :: 0x40 :: t) f = some (.utf16be, false) := by
+  have h : detect [0, 0x40] false = some (.utf16be, false) := by decide
+  exact detect_never_revised [0, 0x40] t f _ h
+
+/-- T7.1 (auto-detected, BOM-less UTF-16 / UTF-32): a text that starts with `@c` (in particular with an `@charset`
+rule), encoded as utf-16-le / -be / utf-32-le / -be (any known spelling `g`, no BOM) and decoded WITHOUT an
+`encoding` argument, is recognised by its first code units, decoded with that encoding, and comes back with
+the name in its `@charset` rule rewritten to the detector's name for it -/
+theorem roundtrip_auto_pattern (g : Name) (k : Kind) (tl : List Nat)
+    (hl : lookupName g = some (.plain k)) (hk : k = .u16le ∨ k = .u16be ∨ k = .u32le ∨ k = .u32be)
+    (henc : (encScan k (fixFinal (0x40 :: 0x63 :: tl) g)).2 = true) :
+    oneShot cpyInner none true (encodeOneShot cpyInnerEnc (some g) (0x40 :: 0x63 :: tl)) =
+      fixFinal (0x40 :: 0x63 :: tl) (patName k) := by
+  obtain ⟨tl', hx⟩ := fixFinal_head tl g
+  have e1 : encodeOneShot cpyInnerEnc (some g) (0x40 :: 0x63 :: tl) = patHead k ++ (encScan k tl').1 := by
+    simp only [encodeOneShot, cpyInnerEnc, cpyEncOut, hl, encOut, hx, CName.bom, CName.kind, encScan_at_c k hk]
+    simp
+  have hdet : detect (patHead k ++ (encScan k tl').1) true =
+      some (match k with | .u16le => .utf16le | .u16be => .utf16be | .u32le => .utf32le | _ => .utf32be, false) := by
+    rcases hk with rfl | rfl | rfl | rfl
+    · exact pattern_utf16_le _ true
+    · exact pattern_utf16_be _ true
+    · exact pattern_utf32_le _ true
+    · exact pattern_utf32_be _ true
+  have hfe : finalEnc none true (patHead k ++ (encScan k tl').1) = patName k := by
+    have hdf : detectFinal (patHead k ++ (encScan k tl').1) = _ :=
+      Option.some.inj ((detect_true _).symm.trans hdet)
+    unfold finalEnc pick
+    rw [hdf]
+    rcases hk with rfl | rfl | rfl | rfl <;> rfl
+  have hl2 : lookupName (patName k) = some (.plain k) := by
+    rcases hk with rfl | rfl | rfl | rfl <;> decide
+  rw [e1]
+  unfold oneShot
+  rw [hfe]
+  have e3 : cpyInner.out (patName k) (patHead k ++ (encScan k tl').1) true = fixFinal (0x40 :: 0x63 :: tl) g := by
+    have := incOut_encode (.plain k) (fixFinal (0x40 :: 0x63 :: tl) g) henc
+    simp only [CName.bom, CName.kind, List.nil_append, hx, encScan_at_c k hk] at this
+    simp only [cpyInner, cpyOut, hl2, this, hx]
+  rw [e3]
+  exact fixFinal_fixFinal _ g (patName k) (lookup_written_noquote g _ hl)
+
 /-! ## the stream classes (`StreamReader`, `StreamWriter`; `Model/CodecStream.lean`) -/
 
 /-- T7.7 the stream reader, for EVERY way the stream hands out the bytes and every `encoding` / `force`: what
@@ -568,5 +621,11 @@ example : erunAllE cpyInnerEnc (some (cps' "ascii")) [[0x61], [0xE9]] = none ∧
 example : erunAllE cpyInnerEnc (some (cps' "latin-1")) [[0x61], [0xE9]] = some [0x61, 0xE9] := by decide
 example : irun (.plain .u8) (CName.init (.plain .u8)) [[0x61, 0xE2], [0x82]] = some (⟨some .u8, [0xE2, 0x82]⟩, [0x61]) := by
   decide
+/-- BOM-less UTF-16-BE with an `@charset` rule, decoded without `encoding` -/
+example : lookupName (cps' "UTF-16BE") = some (.plain .u16be) ∧
+    (encScan .u16be (fixFinal (0x40 :: 0x63 :: ((prefix10.drop 2) ++ [0x78, 0x22, 0x3B, 0xE9])) (cps' "UTF-16BE"))).2 = true :=
+  ⟨by decide, by decide⟩
+example : oneShot cpyInner none true (encodeOneShot cpyInnerEnc (some (cps' "UTF-16BE")) (prefix10 ++ [0x78, 0x22, 0x3B, 0xE9])) =
+    prefix10 ++ cps' "utf-16-be" ++ [0x22, 0x3B, 0xE9] := by decide
 
 end CssVerif.C07
